@@ -147,6 +147,10 @@ def stepB (cfg : Cfg) (st : BSt) : MOp → BSt
 
 def runB (cfg : Cfg) (h : List MOp) : BSt := h.foldl (stepB cfg) BSt.init
 
+/-- the two halves of a Save of a new key, for schedules in which a bucket build falls between them -/
+def stepPutStore (st : BSt) (r : Rec) : BSt := { st with store := putRec r st.store }
+def stepPutNotify (st : BSt) (r : Rec) : BSt := { st with buckets := st.buckets.map (onOp st.store (.upsert r)) }
+
 def bucketFor (st : BSt) (p : Path) : Option Bucket := st.buckets.find? (fun b => b.path = p)
 
 /-- `GetOrBuildBucket(p)` as a reader runs it: a bucket that is `EqualityInitialized` is used as it
